@@ -209,6 +209,87 @@ def options_forwarded(ck):
                     break
 
 
+def background_error_isolation(ck):
+    """Work of event k that is left to settle in the background (a sibling abandoned after a synchronous non-null
+    failure) may fail while event k+1 is executing: response k+1 must still equal the execution of event k+1 alone."""
+    import asyncio
+    from graphql import build_schema, parse
+    from graphql.execution import subscribe
+    schema = build_schema("type Ev { bad: Int! slow: Int ok: Int n: Int } type Query { tick: Ev } type Subscription { tick: Ev }")
+    doc = parse("subscription { tick { slow bad ok n } }")
+    for late in (False, True):
+        async def run_one():
+            g0, g1 = asyncio.Event(), asyncio.Event()
+
+            async def slow0():
+                await g0.wait()
+                raise RuntimeError("slow failed for event 0")
+
+            def bad0():
+                raise RuntimeError("bad")
+
+            async def ok1():
+                await g1.wait()
+                return 1
+            events = [{"tick": {"slow": slow0, "bad": bad0, "ok": 0, "n": 0}},
+                      {"tick": {"slow": 5, "bad": 7, "ok": ok1, "n": 1}}]
+
+            async def src():
+                for e in events:
+                    yield e
+
+            def resolver(source, info, **_a):
+                v = source.get(info.field_name) if isinstance(source, dict) else None
+                return v() if callable(v) else v
+            res = subscribe(schema, doc, subscribe_field_resolver=lambda *_a, **_k: src(), field_resolver=resolver)
+            if hasattr(res, "__await__"):
+                res = await res
+            it = res.__aiter__()
+            r0 = await asyncio.wait_for(it.__anext__(), 5)
+            t1 = asyncio.ensure_future(it.__anext__())
+            for _ in range(5):
+                await asyncio.sleep(0)
+            if late:
+                g1.set()
+                r1 = await asyncio.wait_for(t1, 5)
+                g0.set()
+            else:
+                g0.set()  # the abandoned sibling of event 0 fails while event 1 is executing
+                for _ in range(5):
+                    await asyncio.sleep(0)
+                g1.set()
+                r1 = await asyncio.wait_for(t1, 5)
+            for _ in range(5):
+                await asyncio.sleep(0)
+            try:
+                await asyncio.wait_for(it.__anext__(), 5)
+                ended = False
+            except StopAsyncIteration:
+                ended = True
+            return r0, r1, ended
+        loop = asyncio.new_event_loop()
+        try:
+            r0, r1, ended = loop.run_until_complete(asyncio.wait_for(run_one(), 20))
+            obs = ((r0.data, sorted(tuple(e.path or ()) for e in r0.errors or [])),
+                   (r1.data, sorted(tuple(e.path or ()) for e in r1.errors or [])), ended)
+        except Exception as e:  # noqa: BLE001
+            obs = ("raised", type(e).__name__ + ": " + str(e)[:200])
+        finally:
+            loop.close()
+        ck.evaluations += 1
+        ck.note_case(("background-isolation", late), nontrivial=True)
+        want = (({"tick": None}, [("tick", "bad")]), ({"tick": {"slow": 5, "bad": 7, "ok": 1, "n": 1}}, []), True)
+        # the abandoned sibling's own error may or may not be reported in response 0 (already delivered): only its path is fixed
+        ok = obs[0] != "raised" and obs[1] == want[1] and obs[2] is True and obs[0][0] == want[0][0] \
+            and set(obs[0][1]) <= {("tick", "bad"), ("tick", "slow")} and ("tick", "bad") in obs[0][1]
+        if not ok:
+            ck.violation(f"background-error-isolation:late={late}",
+                         f"responses {obs!r:.300} for an event with an abandoned failing sibling followed by a normal event; "
+                         f"expected {want!r:.300}",
+                         {"relation": "response i = execute(event i); work of an earlier event does not leak into a later response",
+                          "late": late, "impl": repr(obs)[:600], "model": repr(want)[:600]})
+
+
 def gen_source(items, log, gate=None):
     async def gen():
         log.append(("open",))
@@ -531,6 +612,7 @@ def run(tier):
     ck.count("cases", ncases)
     disabled_incremental_directives(ck)
     options_forwarded(ck)
+    background_error_isolation(ck)
     return ck.finish()
 
 
